@@ -47,10 +47,17 @@ theorem C09_holder_enabled {s : State} (h : sys.Reach s) (t : Nat) (hm : s.mutex
     cases a with
     | add v => simp
     | push v => simp
-    | extend vs => cases vs <;> simp
+    | extend vs => cases vs <;> simp <;> (split <;> simp)
   | pPop => have := i.popNe t (by simp [hp, PC.popping]); cases hd : s.dq <;> simp_all
   | oPop => have := i.popNe t (by simp [hp, PC.popping]); cases hd : s.dq <;> simp_all
   | _ => simp_all [PC.holds, acquire]
+
+/-- A stop marker inside an extend() batch (value 0 in the model) closes the queue at its place in the batch — it is not
+enqueued as a value — and the rest of the batch follows. -/
+theorem C09_marker_in_batch_closes {s s' : State} {t : Nat} {vs : List Nat} {b : Bool} {l : Label}
+    (hp : s.pc t = .sAct (.extend (0 :: vs)) b) (hs : step s t = some (s', l)) :
+    s'.closed = true ∧ s'.dq = s.dq ∧ l = .close ∧ s'.pc t = .sAct (.extend vs) false := by
+  unfold step at hs; rw [hp] at hs; simp only [if_true] at hs; cases hs; simp [State.setPc]
 
 /-- L1: in a quiescent reachable state of a closed queue no consumer is parked. -/
 theorem C09_blocked_consumers_released {s : State} (h : sys.Reach s) (hq : sys.Quiescent s)
